@@ -1,6 +1,6 @@
 SPECIFICATION Spec
 CONSTANT Remote = {"b", "c"}
-CONSTANT MaxActs = 5
+CONSTANT MaxActs = 3
 CONSTANT HoleMode = "each"
 INVARIANT UntrustedOnlyOpen
 INVARIANT SensitiveRefused
